@@ -8,6 +8,8 @@ package c04
 import (
 	"encoding/json"
 	"fmt"
+	"os"
+	"path/filepath"
 	"sort"
 	"strings"
 
@@ -135,7 +137,41 @@ func Invariants(ms *yang.Modules) []string {
 	return problems
 }
 
-func check(files []dump.File) (f *fail, clean bool, nodes int) {
+// fromPath loads one file of the set explicitly and lets Process fetch what it imports and includes
+// from a search path that holds all files of the set - the way the command and GetModule are used.
+// What such a run loads is another program than the whole set, so its errors are not judged; when
+// it is clean, the invariants hold for every module it loaded, fetched ones included.
+func fromPath(files []dump.File) (f *fail) {
+	dir, err := os.MkdirTemp("..", "c04-")
+	if err != nil {
+		panic(err)
+	}
+	defer os.RemoveAll(dir)
+	dir, _ = filepath.Abs(dir)
+	for _, x := range files {
+		if err := os.WriteFile(filepath.Join(dir, x.Name), []byte(x.Text), 0o644); err != nil {
+			panic(err)
+		}
+	}
+	for _, x := range files {
+		ms := yang.NewModules()
+		ms.AddPath(dir)
+		if err := ms.Read(filepath.Join(dir, x.Name)); err != nil {
+			continue
+		}
+		if errs := ms.Process(); len(errs) > 0 {
+			continue
+		}
+		if p := Invariants(ms); len(p) > 0 {
+			return &fail{classify(p) + ":fetched-from-the-search-path", "a proper tree without recorded errors in every module the run loaded (explicitly loaded: " + x.Name + ")", strings.Join(p, "\n")}
+		}
+	}
+	return nil
+}
+
+func check(files []dump.File) (f *fail, clean bool, nodes int) { return checkWith(files, false) }
+
+func checkWith(files []dump.File, path bool) (f *fail, clean bool, nodes int) {
 	pan, pt := core.Guard(func() {
 		for _, rev := range []bool{false, true} {
 			fs := append([]dump.File{}, files...)
@@ -172,6 +208,9 @@ func check(files []dump.File) (f *fail, clean bool, nodes int) {
 				f = &fail{classify(p) + ":after-lookup", "a proper tree", strings.Join(p, "\n")}
 				return
 			}
+		}
+		if path && len(files) > 1 {
+			f = fromPath(files)
 		}
 	})
 	if pan {
@@ -246,7 +285,7 @@ func run(c *core.Ctx) {
 		return
 	}
 	fmt.Sscanf(c.Shard, "corpus/%d", &shard)
-	c.Res.Bound = "every program of the USES, AUG and CFG families and of the conflict library (deviations of every kind, two deviating or augmenting modules, revisions, submodules, errors) and the scale sets (deep nesting to 40 (70), wide containers, long chains, many imports and includes at every size up to a bound and around the powers of two; 18 sets of 1 700 to 82 000 statements) in two load orders; invariants evaluated on every node of every module and submodule tree of every set that processes without error, before and after path lookups into rpc input/output"
+	c.Res.Bound = "every program of the USES, AUG and CFG families and of the conflict library (deviations of every kind, two deviating or augmenting modules, revisions, submodules, errors) and the scale sets (deep nesting to 40 (70), wide containers, long chains, many imports and includes at every size up to a bound and around the powers of two; 18 sets of 1 700 to 82 000 statements) in two load orders, and - for every hand-written set and a third (thorough: all) of the generated ones - each file loaded alone with the others fetched from a search path during Process; invariants evaluated on every node of every module and submodule tree of every set that processes without error, before and after path lookups into rpc input/output"
 	stride := 1
 	n := 0
 	corpus.Each(c.Tier, shard, nShards, stride, func(s corpus.Set) {
@@ -261,7 +300,10 @@ func run(c *core.Ctx) {
 		c.Exec()
 		c.Edge(2)
 		c.StateN(1)
-		f, clean, _ := check(s.Files)
+		// the pass that fetches from a search path: every set by hand, every third generated one
+		// (thorough: all)
+		pathPass := c.Tier == "thorough" || (s.Family != "uses" && s.Family != "aug" && s.Family != "cfg") || caseNo%3 == 0
+		f, clean, _ := checkWith(s.Files, pathPass)
 		if !clean && f == nil {
 			c.Exclude()
 			c.Outcome("not-clean:outside-the-quantifier")
@@ -294,7 +336,7 @@ func replay(tier string, raw json.RawMessage) (bool, string, string) {
 			in.Files = scale.Wide(n)
 		}
 	}
-	f, _, _ := check(in.Files)
+	f, _, _ := checkWith(in.Files, true)
 	if f == nil {
 		return false, "", "all invariants hold"
 	}
